@@ -444,6 +444,8 @@ const BAD_LINES: &[&str] = &[
     "sq0\t1\t.\tA\t.\t.\t.\t.\tGT\t0/\u{e9}",
     "sq0\t1\t.\tA\t.\t.\t.\t.\tGT\t\u{e9}/1",
     "sq0\t1\t.\tA\t.\t.\t.\t.\tGT:F0\t0/1:\u{e9}",
+    "sq0\t1\t.\tA\t.\t.\t.\t.\tGT\t0\u{e9}/1",
+    "sq0\t1\t.\tA\t.\t.\t.\t.\tGT\t0/1\u{e9}|2",
     "sq0\t1\t.\tA\t.\t.\t.\t.\tGT\t",
     "sq0\t1\t.\tA\t.\t.\t.\t.\t\t0/1",
     "sq0\t1\t.\tA\t.\t.\t.\t.",
@@ -487,8 +489,9 @@ const ALT_POOL: &[&str] = &[
 const FILTER_POOL: &[&str] = &["q10", "s50", "LowQual", "PASS2", "f.1", "a=b", "x,y"];
 
 fn gen_record(rng: &mut Rng, ver: &str, feat: u64) -> Gen {
-    let reserved = feat & 1 != 0;
-    let allow_empty = feat & 2 != 0;
+    let _ = feat;
+    let reserved = rng.chance(1, 3);
+    let allow_empty = rng.chance(1, 4);
     // header definitions
     let mut infos: Vec<(String, String, String)> = vec![];
     let ninfo = rng.range(0, 6) as usize;
@@ -726,27 +729,15 @@ pub fn run_rec(c: &Case) -> Obs {
         R::Err => return fail("rec-writer-rejects-valid".into(), format!("{orig:?}")),
         R::Panic => return fail("rec-writer-panic".into(), format!("{orig:?}")),
     };
-    let has_reserved = orig.info.iter().any(|(_, v)| has_reserved_char(true, v)) || orig.samples.iter().flatten().any(|v| has_reserved_char(false, v));
-    let has_empty_sample = orig.samples.iter().any(|r| r.is_empty()) && !orig.samples.is_empty();
     let rb2 = match read_eager(&header, &line) {
         R::Ok(r) => r,
-        R::Err => {
-            let tag = if has_empty_sample {
-                "sample-no-values-written-empty"
-            } else if has_reserved {
-                "rec-char-reserved-eager-not-decoded"
-            } else {
-                "rec-unreadable-eager"
-            };
-            return fail(tag.into(), line);
-        }
+        R::Err => return fail("rec-unreadable-eager".into(), line),
         R::Panic => return fail("rec-reader-panic-eager".into(), line),
     };
     let eager = canon(&rb2);
     let expect = expected_after_roundtrip(&orig, ver);
     if let Some(f) = first_diff(&expect, &eager) {
-        let tag = if has_reserved && (f == "info" || f == "samples") { "rec-char-reserved-eager-not-decoded".to_string() } else { format!("rec-{f}-roundtrip-eager") };
-        return fail(tag, format!("{line} :: expected {expect:?} got {eager:?}"));
+        return fail(format!("rec-{f}-roundtrip-eager"), format!("{line} :: expected {expect:?} got {eager:?}"));
     }
     // lazy view: every accessor against the eager record
     let lrec = match read_lazy(&line) {
@@ -847,8 +838,7 @@ pub fn run_rec(c: &Case) -> Obs {
     match write_line(&header, &rb2) {
         R::Ok(l2) if l2 == line => {}
         R::Ok(l2) => {
-            let tag = if eager.samples.iter().any(|r| r.is_empty()) { "sample-no-values-written-empty" } else { "rec-text-not-fixed-point" };
-            return fail(tag.into(), format!("{line} :: {l2}"));
+            return fail("rec-text-not-fixed-point".into(), format!("{line} :: {l2}"));
         }
         R::Err => return fail("rec-rewrite-rejected".into(), line),
         R::Panic => return fail("rec-rewrite-panic".into(), line),
@@ -883,7 +873,8 @@ fn other_fields(rng: &mut Rng, names: &[&str]) -> String {
 }
 
 fn gen_header_text(rng: &mut Rng, ver: &str, feat: u64) -> String {
-    let idx = feat & 1 != 0;
+    let _ = feat;
+    let idx = rng.chance(1, 3);
     let mut t = format!("##fileformat=VCFv{ver}\n");
     let mut idxn = 1;
     let mut idxf = |rng: &mut Rng| {
@@ -1086,11 +1077,7 @@ pub fn run_hdr(c: &Case) -> Obs {
         let b: Vec<&str> = t2.lines().collect();
         let i = (0..a.len().max(b.len())).find(|&i| a.get(i) != b.get(i)).unwrap_or(0);
         let (la, lb) = (a.get(i).copied().unwrap_or(""), b.get(i).copied().unwrap_or(""));
-        let tag = if la.contains(",IDX=") && strip_idx(la) == lb {
-            "hdr-idx-dropped-on-write".to_string()
-        } else {
-            format!("hdr-text-not-fixed-point-{}", line_kind(la))
-        };
+        let tag = format!("hdr-text-not-fixed-point-{}", line_kind(la));
         return fail(tag, format!("{la} => {lb}"));
     }
     match parse_header_text(&t2) {
@@ -1121,11 +1108,8 @@ pub fn run_bad(c: &Case) -> Obs {
     let infos = vec![("I0".to_string(), "1".to_string(), "I".to_string())];
     let fmts = vec![("GT".to_string(), "1".to_string(), "S".to_string()), ("F0".to_string(), "1".to_string(), "C".to_string())];
     let header = mk_header("4.3", &infos, &fmts, &["s0".to_string()]).expect("header");
-    let cols: Vec<&str> = line.split('\t').collect();
-    let gt_nonascii = cols.get(8).is_some_and(|f| f.starts_with("GT")) && cols.get(9).is_some_and(|s| s.chars().next().is_some_and(|ch| !ch.is_ascii()));
     if let R::Panic = read_eager(&header, &line) {
-        let tag = if gt_nonascii { "bad-gt-nonascii-first-char-eager-panic" } else { "bad-line-eager-panic" };
-        return Obs::fail("-", tag, line);
+        return Obs::fail("-", "bad-line-eager-panic", line);
     }
     match read_lazy(&line) {
         R::Panic => return Obs::fail("-", "bad-line-lazy-read-panic", line),
